@@ -26,6 +26,9 @@ const CONTEXTS: &[(char, &str, char)] = &[
     ('S', "%do;~{} %end;", 'S'),
     ('S', "%do i=1 %to 3;~{} %end;", 'S'),
     ('S', "%do i~=~1 %to 9 %by 2;~{} %end;", 'S'),
+    ('S', "%do %v=1 %to 3;~{} %end;", 'S'),
+    ('S', "%do &v.i~=~1 %to 3;~{} %end;", 'S'),
+    ('S', "%do i&j=1 %to 3;~{} %end;", 'S'),
     ('S', "%do %while(~&i<3);~{} %end;", 'S'),
     ('S', "%do %until(&i ge 3);~{} %end;", 'S'),
     ('S', "%if &a %then %do;~{} %end;", 'S'),
@@ -88,7 +91,8 @@ const LEAVES: &[(char, &[&str])] = &[
         'S',
         &[
             "x=1;", "%put a;", "%let a=1;", "* c;", "/*c*/", "%m;", "%m(1)", "run;", "%return;", "%local a b;",
-            "%goto l;", "datalines;\n1 2\n;",
+            "%goto l;", "datalines;\n1 2\n;", "* it's c;", "x='a''b' \"c;d\";", "format x $char8. y 8.2;",
+            "%put %str(;) %nrstr(%mend;);",
         ],
     ),
     ('T', &["a", "1", "&v", "&v.x", "&&v&i", "a b", "%m", "'s'", ""]),
@@ -223,7 +227,7 @@ fn trace_program(local: &mut Local, src: &str, r: &LexResult) {
 
 fn c12_run(cfg: &Config) -> PropRun {
     let ex = Explorer::new(cfg.threads, cfg.cap_s, if cfg.tier == Tier::Quick { 26 } else { 30 });
-    let d = if cfg.tier == Tier::Quick { 3 } else { 4 };
+    let d = if cfg.tier == Tier::Quick { 4 } else { 5 };
     // materialise depth d-1, index the last layer
     let inner = chains(d - 1);
     let top: Vec<&(char, &str, char)> = CONTEXTS.iter().filter(|c| c.0 == 'S').collect();
@@ -249,7 +253,7 @@ fn c12_run(cfg: &Config) -> PropRun {
             apply_filler(&t, filler, buf);
         }
     };
-    let trace_every: u64 = if cfg.tier == Tier::Quick { 8 } else { 64 };
+    let trace_every: u64 = if cfg.tier == Tier::Quick { 64 } else { 1024 };
     let visit = |local: &mut Local, input: &str, i: u64| -> Visit {
         local.lexer_runs += 1;
         match run_lexer(input) {
